@@ -666,11 +666,13 @@ func parseNumber(s []byte) (Object, error) {
 		return Integer(x), nil
 	}
 
-	y, err := strconv.ParseFloat(string(s), 64)
-	if err == strconv.ErrRange {
-		return nil, &postScriptError{eLimitcheck, fmt.Sprintf("number %q out of range", s)}
-	} else if err == nil && !math.IsInf(y, 0) && !math.IsNaN(y) {
-		return Real(y), nil
+	if isDecimalNumber(s) {
+		y, err := strconv.ParseFloat(string(s), 64)
+		if err == strconv.ErrRange {
+			return nil, &postScriptError{eLimitcheck, fmt.Sprintf("number %q out of range", s)}
+		} else if err == nil && !math.IsInf(y, 0) && !math.IsNaN(y) {
+			return Real(y), nil
+		}
 	}
 
 	mm := radixNumberRe.FindSubmatch(s)
@@ -685,6 +687,18 @@ func parseNumber(s []byte) (Object, error) {
 	}
 
 	return nil, &postScriptError{eSyntaxerror, fmt.Sprintf("invalid number %q", s)}
+}
+
+// isDecimalNumber reports whether s consists of digits, signs, a decimal point
+// and an exponent marker only.  strconv.ParseFloat also accepts hexadecimal
+// floats, underscores, "inf" and "nan", none of which is a PostScript number.
+func isDecimalNumber(s []byte) bool {
+	for _, c := range s {
+		if !(c >= '0' && c <= '9' || c == '+' || c == '-' || c == '.' || c == 'e' || c == 'E') {
+			return false
+		}
+	}
+	return true
 }
 
 var radixNumberRe = regexp.MustCompile(`^([0-9]{1,2})#([0-9a-zA-Z]+)$`)
